@@ -35,7 +35,12 @@ func (ck *Check) actCalls() []ssa.CallInstruction {
 			actFns[s.Fn] = true
 		}
 	}
+	sctx := ck.P.NewCtx(a.Scan)
 	return callsIn(a.Scan, func(ci ssa.CallInstruction) bool {
+		// dead code (unsatisfiable path condition) performs no action
+		if sat, err := Satisfiable(sctx.PC(ci)); err == nil && !sat {
+			return false
+		}
 		for _, g := range ck.P.calleesOf(ci) {
 			r := ck.P.reachCut([]*ssa.Function{g}, nil)
 			for f := range actFns {
@@ -72,6 +77,10 @@ func checkC02(ck *Check) {
 	for _, ci := range acts {
 		pc := ctx.PC(ci)
 		key := ck.P.siteKey(ci)
+		if sat, err := Satisfiable(pc); err == nil && !sat {
+			ck.ok("C02.R1", key, ck.P.instrPos(ci), funcID(a.Scan), "PC ⇒ ¬locked(g)", "unreachable call (path condition unsatisfiable)")
+			continue
+		}
 		var found *Term
 		for _, at := range pc.Atoms() {
 			if ck.isLockedCall(at, g) {
@@ -83,7 +92,7 @@ func checkC02(ck *Check) {
 		ck.cond(found != nil, "C02.R1", key, ck.P.instrPos(ci), funcID(a.Scan), "PC ⇒ ¬locked(g): a locked() call on this group's scale lock was evaluated on the path and was false", pc.String(),
 			"a call that can reach an action site (taint / untaint / cloud resize / delete) is not dominated by a false scale-lock test, so it runs inside the cool-down")
 	}
-	ck.floor("C02.R1", "ACT calls in the scan body", len(acts), 5)
+	ck.floor("C02.R1", "ACT calls in the scan body", len(acts), 3)
 
 	// R2 arming
 	{
@@ -701,7 +710,7 @@ func checkC04(ck *Check) {
 		}
 		ck.cond(okv, "C04.R4", key, ck.P.instrPos(ci), funcID(a.Scan), "PC ⇒ min_nodes ≤ len(allNodes) ≤ max_nodes", pc.String(), why)
 	}
-	ck.floor("C04.R4", "ACT calls in the scan body", len(acts), 5)
+	ck.floor("C04.R4", "ACT calls in the scan body", len(acts), 3)
 }
 
 // findInvoke: the term of an invoke of method on receiver term recv occurring in fn.
